@@ -107,6 +107,10 @@ def ensure_facts(force=False, log=True):
     fdir = os.path.join(CACHE, "facts", hsh)
     ok = os.path.join(fdir, ".ok")
     if os.path.exists(ok) and not force:
+        try:
+            os.utime(fdir)  # keep the facts of the tree in use from being pruned as "old"
+        except OSError:
+            pass
         return fdir
     os.makedirs(CACHE, exist_ok=True)
     if not os.path.exists(DRIVER):
